@@ -39,6 +39,21 @@ class Hang(BaseException):
     """a blocking call that would never return under the scripted oracle"""
 
 
+class ScenarioTimeout(Exception):
+    """a real-child scenario did not finish in time (e.g. a timed join that blocks)"""
+
+
+STAGE = ['']
+
+
+def _on_alarm(signum, frame):
+    raise ScenarioTimeout('no progress for %ss during: %s' % (REAL_CASE_LIMIT, STAGE[0]))
+
+
+REAL_CASE_LIMIT = 10
+TIMEOUTS = [0]
+
+
 # --------------------------------------------------------------------------- world
 class World:
     def __init__(self, case):
@@ -230,12 +245,16 @@ def run_real(case, tmpdir, seq):
     p.daemon = True
     out['code_unstarted'] = res_json(p.exitcode)
     out['alive_unstarted'] = p.is_alive()
+    STAGE[0] = 'start()'
     p.start()
+    STAGE[0] = 'exitcode / is_alive() / active_children() on a running child'
     out['none_before'] = p.exitcode is None
     out['alive_before'] = bool(p.is_alive())
     out['child_before'] = p in bprocess.active_children()
     t0 = time.monotonic()
+    STAGE[0] = 'join(%s) on a running child' % case.get('short', 0.02)
     p.join(case.get('short', 0.02))
+    STAGE[0] = 'after the timed join' 
     out['timed_join_s'] = round(time.monotonic() - t0, 3)
     out['timed_join_ok'] = (time.monotonic() - t0) < 2.0 and p.exitcode is None and bool(p.is_alive()) \
         and p in bprocess._children
@@ -245,7 +264,9 @@ def run_real(case, tmpdir, seq):
         while not os.path.exists(path[2]) and time.monotonic() - t0 < 20:
             time.sleep(0.002)
         os.kill(p.pid, path[1])
+    STAGE[0] = 'join(30) on an ending child'
     p.join(30)
+    STAGE[0] = 'status calls after the final join' 
     out['code'] = p.exitcode
     out['child_after'] = p in bprocess._children
     out['alive_after'] = bool(p.is_alive())
@@ -315,7 +336,10 @@ def run_fs(case):
 
 
 def run_human(case):
-    s = human_status(case['status'])
+    try:
+        s = human_status(case['status'])
+    except Exception as exc:     # noqa
+        s = 'raised %s' % type(exc).__name__
     m = re.match(r'^signal (-?\d+|None)( \(\w+\))?$', s)
     if m:
         return dict(is_sig=True, num=None if m.group(1) == 'None' else int(m.group(1)), text=s)
@@ -336,18 +360,28 @@ def main():
                 out.append(run_world(c))
             elif k == 'sweep':
                 out.append(run_sweep(c))
+            elif k == 'real' and TIMEOUTS[0] >= 2:
+                out.append(dict(crash='skipped after repeated scenario timeouts', skipped=True))
             elif k == 'real':
+                signal.signal(signal.SIGALRM, _on_alarm)
+                signal.setitimer(signal.ITIMER_REAL, REAL_CASE_LIMIT)
                 try:
                     out.append(run_real(c, tmpdir, seq))
                 except Exception as exc:     # noqa -- the scenario itself failed: reported
                     import traceback
+                    if isinstance(exc, ScenarioTimeout):
+                        TIMEOUTS[0] += 1
                     out.append(dict(crash='%s: %s' % (type(exc).__name__, exc),
                                     trace=traceback.format_exc()[-800:]))
+                finally:
+                    signal.setitimer(signal.ITIMER_REAL, 0)
                     for p in list(bprocess._children):
-                        try:
-                            os.kill(p.pid, signal.SIGKILL)
-                        except Exception:    # noqa
-                            pass
+                        if p._popen is not None and p._popen.returncode is None:
+                            try:
+                                os.kill(p.pid, signal.SIGKILL)
+                                REAL_WAITPID(p.pid, 0)
+                            except Exception:    # noqa
+                                pass
                     bprocess._children.clear()
             elif k == 'fs':
                 out.append(run_fs(c))
